@@ -212,6 +212,7 @@ type instance struct {
 	wide   int                 // k > 0: the k-th wire-boundary instance of its type (fill.go: byte-counted lists at the boundaries of their count byte)
 	min    *minPlan            // not nil: every element has its minimal encoding, the plan says how many elements each section holds (gen "minimal")
 	light  bool                // no long text / wide table (gen "life": every probe replays the life of the object)
+	sparse bool                // every scalar leaf is, with probability 1/2, the zero value of its type (gen "env": what a reader takes over from the object it decodes INTO shows only where the wire carries a zero)
 	replay func(p interface{}) // not nil: what happened to the object after it was populated (earlier writes, mutations): a rebuilt copy lives through the same
 }
 
@@ -219,7 +220,7 @@ type instance struct {
 func (it *instance) build() interface{} {
 	r := rand.New(rand.NewSource(it.seed))
 	p := it.pt.mk()
-	g := &filler{r: r, nonil: it.nonil, wide: it.wide, min: it.min, light: it.light}
+	g := &filler{r: r, nonil: it.nonil, wide: it.wide, min: it.min, light: it.light, sparse: it.sparse}
 	if r.Intn(24) == 0 && it.min == nil && !it.light {
 		g.big = 1
 	}
@@ -773,6 +774,7 @@ type buildOpts struct {
 	base     int      // items registered earlier in the history (several containers share the store)
 	compress bool     // zip kinds: ask for compression (gen "hold")
 	minimal  bool     // the items are minimal instances (gen "minimal")
+	sparse   bool     // the items are sparse instances (gen "env")
 	plan     *minPlan // minimal: the plan of every item (nil: a section drawn per item)
 	how      string   // record lists: the setter to use ("" : drawn)
 	nonEmpty bool     // at least one element (gen "hold": there must be something to hold on to)
@@ -780,6 +782,9 @@ type buildOpts struct {
 
 // the registered item of a container
 func itemMessage(pt *ptype, seed int64, o buildOpts, r *rand.Rand, write func(p interface{}) ([]byte, string)) (*message, string, error) {
+	if o.sparse {
+		return makeMessageOf(&instance{pt: pt, seed: seed, sparse: true}, write)
+	}
 	if !o.minimal {
 		return makeMessage(pt, seed, 0, 0, write)
 	}
@@ -1323,9 +1328,10 @@ func Run(c *core.Ctx) error {
 		"counts: the same containers with an element count at a boundary of the 16-bit count cell (127..257, 32766..65535), built from three registered items repeated in a random pattern"
 	c.Rule += "; life: one object of every type written, changed through its public surface (assignable leaves put back to zero / changed, elements added and removed, public mutators), written again, decoded: the carried set of the later write is derived for that state of the object (probes replay its life); " +
 		"hold: two or three packs / containers all written (built) before the first is read back (sent and unpacked), the writer's own slice / the records blob / the decoded pack / the unpacked items kept and looked at again after the later calls; " +
-		"minimal: per count-prefixed section of every type instances with 1, 2, 255 minimal elements in that section and nothing else, read from exactly the encoding; containers over minimal items"
+		"minimal: per count-prefixed section of every type instances with 1, 2, 255 minimal elements in that section and nothing else, read from exactly the encoding; containers over minimal items; " +
+		"env: recorded in a child process whose environment sets every variable golib reads to a non-default value: per type the all-zero instance and sparse instances (every scalar leaf zero with probability 1/2), Enc / Dec / ReEnc; containers and record lists over sparse / minimal items"
 	known := map[string]bool{"": true, "codec": true, "registry": true, "composite": true, "zip": true, "lszip": true, "recs": true, "counts": true,
-		"life": true, "hold": true, "minimal": true}
+		"life": true, "hold": true, "minimal": true, "env": true}
 	if !known[c.OnlyGen] && !strings.HasPrefix(c.OnlyGen, "kf_") {
 		return fmt.Errorf("unknown gen %q", c.OnlyGen)
 	}
@@ -1349,6 +1355,9 @@ func Run(c *core.Ctx) error {
 	if done, err := runKfLife(c); done || err != nil {
 		return err
 	}
+	if c.Args["envchild"] != "" {
+		return runEnvChild(c)
+	}
 	runRegistry(c)
 	if err := runCodec(c); err != nil {
 		return err
@@ -1367,6 +1376,9 @@ func Run(c *core.Ctx) error {
 		return err
 	}
 	if err := runMinimal(c); err != nil {
+		return err
+	}
+	if err := runEnv(c); err != nil {
 		return err
 	}
 	if c.OnlyGen == "" {
